@@ -152,10 +152,11 @@ def fsqrt(q):
     return Fraction(a, b)
 
 
-def random_world(rng, gate_finding, floats=False):
-    """`gate_finding`: leave out the calls of the (not yet listed) finding's class — a search with a target on an object
-    switched to A* with a positive weight and a consistent heuristic. `floats`: the float stream — nodes anywhere on a
-    1/16 lattice in space (squares and their sums are exact doubles, the distances are irrational), float weights."""
+def random_world(rng, floats=False):
+    """`floats`: the float stream — nodes anywhere on a 1/16 lattice in space (squares and their sums are exact doubles, the
+    distances are irrational), float weights. Searches with a target on an object switched to A* with a consistent
+    heuristic (the class of the former finding astar-label-accumulates-heuristic, repaired by c78e3ab) are generated like
+    any other call."""
     import math
     nn = rng.choice([2, 2, 2, 3])
     nets = []
@@ -230,8 +231,6 @@ def random_world(rng, gate_finding, floats=False):
             t = rng.choice(nodes)
             q = ["d", rng.choice(nodes), t, cut(), rng.choice([0, 0, 0, 1]), obj()] if rng.random() < 0.75 else \
                 ["r", rng.choice(nodes), t, cut(), rng.choice([0, 0, 1]), obj()]
-            if gate_finding and S["mode"] == 1 and Fraction(nc.num(S["wgt"])) > 0 and heuristic_consistent(net["pos"], S["edges"], S["wgt"]):
-                continue
             ops.append([k, q])
         elif r < 0.76:
             ops.append([k, ["l", rng.choice(nodes), cut(), rng.choice([0, 0, 1]), obj()]])
@@ -299,7 +298,7 @@ def json_op(op):
     return "%s(%s)" % ({"n": "addNode", "e": "addEdge", "r": "run_routing_forward", "d": "shortest_distance", "l": "shortest_distance[list]",
                         "a": "all_shortest_distances", "p": "prepare", "q": "prepared_shortest_distance",
                         "h": "has_prepared_shortest_distance", "s": "sub_network", "v": "save_prep+load_prep",
-                        "c": "Network", "m": "setRoutingMethod", "w": "setAStarWeight"}[op[0]], ",".join(str(x) for x in op[1:]))
+                        "c": "Network", "m": "setRoutingMethod", "w": "setAStarWeight", "x": "sub_network[kept]", "W": "edge.weight="}[op[0]], ",".join(str(x) for x in op[1:]))
 
 
 def dtok(x):
@@ -312,9 +311,6 @@ def dtok(x):
 def table_tok(tb, unlab=lambda x: x):
     return sorted([unlab(k[0]), unlab(k[1]), nc.tok(Fraction(v))] for k, v in tb.items())
 
-
-FINDING_ASTAR = "astar-label-accumulates-heuristic"
-ASTAR_TAG = "[A* selected on this network, consistent heuristic] "
 
 
 def sqdist(pos, a, b):
@@ -346,7 +342,9 @@ class SessOracle:
     computes the heuristic): the statement applies when the heuristic is consistent (`heuristic_consistent`, which
     includes astar_wgt = 0) — the configuration for which the docstring promises the exact solution; otherwise A* is
     documented as approximate and only what every A* guarantees is checked: sentinel iff unreachable (no cut-off), and a
-    reported value is never below the true minimum."""
+    reported value is never below the true minimum. (Since fix c78e3ab the node label is the travelled distance in A* mode
+    too: wherever the statement applies, the entries written to output_dict and the labels of the nodes a
+    run_routing_forward marked visited are judged as true distances, as in Dijkstra mode.)"""
 
     def __init__(self, n, pos=None, tol=None):
         self.n = n
@@ -375,35 +373,33 @@ class SessOracle:
         return Fraction(got) > true + (0 if self.tol is None else self.tol * max(1, abs(true)))
 
     def regime(self, t):
-        """'exact' (the statement applies), 'approx' (A*, heuristic not consistent); and whether a too-large value
-        belongs to the listed finding's class (A* by the object's own setting, positive weight, consistent heuristic)"""
+        """'exact' (the statement applies: Dijkstra; A* without a target — the heuristic is never computed; A* with a
+        consistent heuristic), 'approx' (A* with a target, heuristic not consistent: the statement does not apply)"""
         if self.mode != 1 or t is None:
-            return "exact", False
+            return "exact"
         if heuristic_consistent(self.pos, self.edges, self.wgt):
-            return "exact", Fraction(nc.num(self.wgt)) > 0
-        return "approx", False
+            return "exact"
+        return "approx"
 
-    def check_value(self, what, got, true, c, regime, known):
+    def check_value(self, what, got, true, c, regime):
         """one reported distance `got` (token, 'none' = -1) for a pair of true distance `true` (None = unreachable)"""
         if true is None:
             if got != "none":
-                return "%s = %s but no permitted walk exists (expected -1)" % (what, got), False
-            return None, False
+                return "%s = %s but no permitted walk exists (expected -1)" % (what, got)
+            return None
         if regime == "exact":
             if within(true, c) and not self.eq(got, true):
-                # the finding's two faces: an inflated value, or (inflated labels exceeding the cut-off) the sentinel
-                k = known and (self.above(got, true) if got != "none" else c is not None)
-                return "%s%s = %s, the minimum over permitted walks is %s" % (ASTAR_TAG if k else "", what, got, nc.tok(true)), k
-            return None, False
+                return "%s = %s, the minimum over permitted walks is %s" % (what, got, nc.tok(true))
+            return None
         # approximate A*: never below the minimum; the sentinel only when a cut-off stopped the search
         if got == "none":
             if c is None:
-                return "%s = -1 but a permitted walk of weight %s exists (A*, no cut-off)" % (what, nc.tok(true)), False
+                return "%s = -1 but a permitted walk of weight %s exists (A*, no cut-off)" % (what, nc.tok(true))
         elif not self.eq(got, true) and not self.above(got, true):
-            return "%s = %s is below the minimum over permitted walks %s (A*)" % (what, got, nc.tok(true)), False
-        return None, False
+            return "%s = %s is below the minimum over permitted walks %s (A*)" % (what, got, nc.tok(true))
+        return None
 
-    def check_dict(self, what, got, s_written, complete, c, regime="exact", known=False):
+    def check_dict(self, what, got, s_written, complete, c, regime="exact"):
         """`got`: dump of the dictionary; entries of source s_written were (re)written by this call"""
         exp, nodes = self.E, self.nodes
         d = self.dist()
@@ -417,110 +413,110 @@ class SessOracle:
                     if g is not None:
                         exp[(s, v)] = (g, self.ver)
                     continue
-                tag = lambda: ASTAR_TAG if known and d[s][v] is not None and self.above(g, d[s][v]) else ""
                 if w and complete:
                     if not self.eq(g, d[s][v]):
-                        return "%s: dictionary[(%d,%d)] = %s, the true distance %s is within the cut-off" % (what, s, v, g, nc.tok(d[s][v])), False
+                        return "%s: dictionary[(%d,%d)] = %s, the true distance %s is within the cut-off" % (what, s, v, g, nc.tok(d[s][v]))
                     exp[(s, v)] = (g, self.ver)
                 elif g is not None and (s, v) not in exp:
                     # written by this call (it was not there before): must be a true distance within the cut-off
                     if not w or not self.eq(g, d[s][v]):
-                        return "%s%s: wrote dictionary[(%d,%d)] = %s; true distance %s, cut-off %s" % (
-                            tag(), what, s, v, g, "none" if d[s][v] is None else nc.tok(d[s][v]), c), bool(tag())
+                        return "%s: wrote dictionary[(%d,%d)] = %s; true distance %s, cut-off %s" % (
+                            what, s, v, g, "none" if d[s][v] is None else nc.tok(d[s][v]), c)
                     exp[(s, v)] = (g, self.ver)
                 elif g is not None and exp[(s, v)][0] != g:
                     # overwritten by this call
                     if not w or not self.eq(g, d[s][v]):
-                        return "%s%s: overwrote dictionary[(%d,%d)] with %s; true distance %s, cut-off %s" % (
-                            tag(), what, s, v, g, "none" if d[s][v] is None else nc.tok(d[s][v]), c), bool(tag())
+                        return "%s: overwrote dictionary[(%d,%d)] with %s; true distance %s, cut-off %s" % (
+                            what, s, v, g, "none" if d[s][v] is None else nc.tok(d[s][v]), c)
                     exp[(s, v)] = (g, self.ver)
         for key in gotd:
             if key not in exp:
-                return "%s: dictionary has the key %s, which no call should have written" % (what, list(key)), False
+                return "%s: dictionary has the key %s, which no call should have written" % (what, list(key))
         for key in exp:
             if key not in gotd:
-                return "%s: the key %s disappeared from the dictionary" % (what, list(key)), False
-        return None, False
+                return "%s: the key %s disappeared from the dictionary" % (what, list(key))
+        return None
 
     def feed(self, what, op, res, pos):
-        """judge one call; `res[pos:]` = its result record(s). Returns (message or None, message belongs to the listed
-        finding's class, position after the records of this call)."""
+        """judge one call; `res[pos:]` = its result record(s). Returns (message or None, position after the records of this call)."""
         nodes, edges = self.nodes, self.edges
         if pos >= len(res):
-            return "%s: no result" % what, False, pos
+            return "%s: no result" % what, pos
         r = res[pos]; pos += 1
         k = op[0]
         has_dump = (k in "rd" and op[4]) or (k == "l" and op[3]) or (k == "a" and op[2])
         end = pos + (1 if has_dump else 0)
+        if r == "err" and k in "rdlsx" and any(v is not None and v not in nodes for v in ([op[1], op[2]] if k in "rd" else [op[1]])):
+            return None, end     # a node this network does not hold (see SessRunner.call): the call was not made
         if isinstance(r, str) and r not in ("ok",):
-            return "%s: %s" % (what, r), False, end
+            return "%s: %s" % (what, r), end
         if k == "n":
             if op[1] not in nodes:
                 nodes.append(op[1])
-            return None, False, end
+            return None, end
         if k == "e":
             edges.append([op[1], op[2], op[3], op[4], op[5]])
             for v in (op[2], op[3]):
                 if v not in nodes:
                     nodes.append(v)
             self.ver += 1; self.fw = None
-            return None, False, end
+            return None, end
         if k == "m":
             self.mode = op[1]
-            return None, False, end
+            return None, end
         if k == "w":
             self.wgt = op[1]
-            return None, False, end
+            return None, end
         d = self.dist()
         ver = self.ver
         cv = lambda c: cutval(c if c == "none" else nc.tok(nc.num(c)))
-        def dict_fail(m, known):
+        def dict_fail(m):
             self.E = None      # after a failure the dictionary's content is no longer predictable
-            return m, known, end
+            return m, end
         if k == "d":
             s, t, c = op[1], op[2], cv(op[3])
-            regime, known = self.regime(t)
-            m, kn = self.check_value(what, r[1], d[s][t], c, regime, known)
+            regime = self.regime(t)
+            m = self.check_value(what, r[1], d[s][t], c, regime)
             if m:
                 if op[4]:
                     self.E = None
-                return m, kn, end
+                return m, end
             if op[4] and self.E is not None:
-                m, kn = self.check_dict(what, res[pos][1], s, False, c, regime, known)
+                m = self.check_dict(what, res[pos][1], s, False, c, regime)
                 if m:
-                    return dict_fail(m, kn)
+                    return dict_fail(m)
         elif k in ("l", "r"):
             s = op[1]
             c = cv(op[-3])
             t = op[2] if k == "r" else None
-            regime, known = self.regime(t)
+            regime = self.regime(t)
             labels = r[1]
             if len(labels) != len(nodes):
-                return "%s: %d values for %d nodes" % (what, len(labels), len(nodes)), False, end
+                return "%s: %d values for %d nodes" % (what, len(labels), len(nodes)), end
             for j, v in enumerate(nodes):
                 if d[s][v] is None:
                     if labels[j] != "none":
-                        return "%s: node %d has the label %s but is unreachable" % (what, v, labels[j]), False, end
+                        return "%s: node %d has the label %s but is unreachable" % (what, v, labels[j]), end
                 elif t is None or v == t:
-                    m, kn = self.check_value("%s: label of node %d" % (what, v), labels[j], d[s][v], c, regime, known)
+                    m = self.check_value("%s: label of node %d" % (what, v), labels[j], d[s][v], c, regime)
                     if m:
                         if op[-2]:
                             self.E = None
-                        return m, kn, end
-                if k == "r" and r[2][j] and not (self.mode == 1 and t is not None) and \
+                        return m, end
+                if k == "r" and r[2][j] and regime == "exact" and \
                         (d[s][v] is None or not self.eq(labels[j], d[s][v])):
-                    return "%s: node %d is marked visited with the label %s, true distance %s" % (what, v, labels[j], d[s][v]), False, end
+                    return "%s: node %d is marked visited with the label %s, true distance %s" % (what, v, labels[j], d[s][v]), end
             if op[-2] and self.E is not None:
-                m, kn = self.check_dict(what, res[pos][1], s, t is None, c, regime, known)
+                m = self.check_dict(what, res[pos][1], s, t is None, c, regime)
                 if m:
-                    return dict_fail(m, kn)
+                    return dict_fail(m)
         elif k == "a":
             c = cv(op[1])
             if op[2]:
                 if self.E is not None:
-                    m, kn = self.check_dict(what, r[1], None, True, c)
+                    m = self.check_dict(what, r[1], None, True, c)
                     if m:
-                        return dict_fail(m, kn)
+                        return dict_fail(m)
                 if res[pos][1] != r[1]:
                     self.E = None       # the dictionary was not filled in place (the property does not require it): its content is no longer predictable
             else:
@@ -530,7 +526,7 @@ class SessOracle:
                 if not same:
                     extra = [x for x in r[1] if x not in want][:3]
                     missing = [x for x in want if x not in r[1]][:3]
-                    return "%s: entries not among the pairs with distance <= cut: %s; missing or wrong: %s" % (what, extra, missing), False, end
+                    return "%s: entries not among the pairs with distance <= cut: %s; missing or wrong: %s" % (what, extra, missing), end
         elif k == "p":
             c = cv(op[1])
             if self.D is None:
@@ -543,13 +539,15 @@ class SessOracle:
             key = (op[1], op[2])
             D = self.D
             if D is None:
-                return None, False, end
+                return None, end
             if key not in D:
                 if r[1] not in ("none", 0):
-                    return "%s = %s but no prepare so far had this pair within its cut-off" % (what, r[1]), False, end
+                    return "%s = %s but no prepare so far had this pair within its cut-off" % (what, r[1]), end
             elif D[key][1] == ver:
                 if (k == "q" and not self.eq(r[1], D[key][0])) or (k == "h" and r[1] != 1):
-                    return "%s = %s, expected the prepared distance %s" % (what, r[1], nc.tok(D[key][0])), False, end
+                    return "%s = %s, expected the prepared distance %s" % (what, r[1], nc.tok(D[key][0])), end
+        elif k == "x":
+            pass        # the returned network becomes a member of the family, judged on its own edge list (`extracted`)
         elif k == "s":
             # the returned object is a Network: its own distances must be right (its Node objects are shared with `net`)
             ids, eids, probe = r[1], r[2], r[3]
@@ -559,19 +557,193 @@ class SessOracle:
                 for b, got in zip(ids, row):
                     want = "none" if ds[a][b] is None else nc.tok(ds[a][b])
                     if not self.eq(got, ds[a][b]):
-                        return "%s: on the returned sub-network shortest_distance(%d,%d) = %s, expected %s" % (what, a, b, got, want), False, end
-        return None, False, end
+                        return "%s: on the returned sub-network shortest_distance(%d,%d) = %s, expected %s" % (what, a, b, got, want), end
+        return None, end
+
+
+def has_dump(op):
+    """the call passes the caller's dictionary as output_dict: its record is followed by a dump of that dictionary"""
+    return bool((op[0] in "rd" and op[4]) or (op[0] == "l" and op[3]) or (op[0] == "a" and op[2]))
+
+
+def extracted_oracle(parent, rec):
+    """the oracle of a network returned by `sub_network` and kept by the caller: the property is about the distances a
+    network reports on ITS OWN edges, so its graph is read off the returned object (`rec` = its node ids and edge ids; the
+    Edge objects are the parent's) — which edges sub_network selects is outside the statement (compared with the model)"""
+    o = SessOracle(parent.n, pos=parent.pos, tol=parent.tol)
+    if isinstance(rec, list) and len(rec) >= 3 and rec[0] == "s":
+        o.nodes = list(rec[1])
+        o.edges = [list(e) for e in parent.edges if e[0] in set(rec[2])]
+        for e in o.edges:
+            for v in (e[1], e[2]):
+                if v not in o.nodes:
+                    o.nodes.append(v)
+    return o
+
+
+# ---------------------------------------------------------------------------------------------------
+# families: several Network objects built on ONE pool of Node objects (Model/GraphShared.lean). sub_network() returns a
+# network that holds its parent's Node objects; a caller may also fill a second Network() with nodes of the first.
+# case: {"kind": "fam", "n": n, "ids": "int"|"str", "ops": [[k, op], ...]}; op = a session op on member k (minus `v`),
+#   ["c"] Network() (member k = number of members so far) · ["x", s, cut, obj] members.append(members[k].sub_network(s, cut))
+#   ["W", eid, w] members[k].getEdge(eid).weight = w (k = a member holding the edge; as the library is, an extract holds its parent's
+#   Edge objects, so every member holding the edge sees the new weight — the oracle does not rely on that). Edge ids are unique in a family.
+# ---------------------------------------------------------------------------------------------------
+def fam_members(case):
+    """replays the generator's view of a family: per member its edges and known nodes (an extract's content is predicted
+    with Floyd-Warshall on its parent); None when an op addresses a member that does not exist (yet)"""
+    n = case["n"]
+    mem = []
+    for k, op in case["ops"]:
+        if op[0] == "c":
+            if k != len(mem):
+                return None
+            mem.append({"nodes": [], "edges": [], "ops": []})
+            continue
+        if not 0 <= k < len(mem):
+            return None
+        M = mem[k]
+        if op[0] == "W":
+            if not any(e[0] == op[1] for e in M["edges"]):
+                return None
+            for X in mem:
+                for e in X["edges"]:
+                    if e[0] == op[1]:
+                        e[3] = op[2]
+            continue
+        if op[0] == "x":
+            d = nc.floyd_warshall(n, M["edges"])
+            c = cutval(op[2] if op[2] == "none" else nc.tok(nc.num(op[2])))
+            keep = [e for e in M["edges"] if op[1] in M["nodes"] and within(d[op[1]][e[1]], c) and within(d[op[1]][e[2]], c)]
+            nodes = []
+            for e in keep:
+                for v in (e[1], e[2]):
+                    if v not in nodes:
+                        nodes.append(v)
+            M["ops"].append(["s"] + op[1:])
+            mem.append({"nodes": nodes, "edges": [list(e) for e in keep], "ops": [["e"] + list(e) for e in keep]})
+            continue
+        M["ops"].append(op)
+        if op[0] == "n" and op[1] not in M["nodes"]:
+            M["nodes"].append(op[1])
+        if op[0] == "e":
+            M["edges"].append(op[1:])
+            for v in (op[2], op[3]):
+                if v not in M["nodes"]:
+                    M["nodes"].append(v)
+    return mem
+
+
+def fam_valid(case):
+    """members are created before they are used; each member's calls form a valid session (known nodes, fresh edge ids)"""
+    mem = fam_members(case)
+    eids = [op[1] for _, op in case["ops"] if op[0] == "e"]
+    return mem is not None and len(eids) == len(set(eids)) and all(sess_valid({"n": case["n"], "ops": M["ops"]}) for M in mem)
+
+
+def random_family(rng):
+    """a network, extracts of it (and of extracts), sometimes a second Network() filled with the same Node objects; searches
+    of every form on all of them interleaved, edges added to any of them along the way"""
+    n = rng.randint(3, 8)
+    ops = [[0, ["c"]]]
+    eid = [0]
+    case = {"kind": "fam", "n": n, "ids": rng.choice(["int", "int", "str"]), "ops": ops}
+    cut = lambda: rng.choice(SESS_CUTS)
+    xcut = lambda: rng.choice([0, 1, 1, 2, 2, 3, "3/2", 5, "none"])
+    obj = lambda: rng.choice([0, 0, 0, 1, 2])
+    wgt = lambda: rng.choice([0, 1, 1, 1, 1, 2, 3, "1/2"])
+    def edge(k, a, b):
+        ops.append([k, ["e", eid[0], a, b, wgt(), rng.choice([-1, 0, 0, 0, 0, 1])]])
+        eid[0] += 1
+    # the first network: a chain, a ring or a random skeleton, so that a cut-off extract is a proper part of it
+    perm = list(range(n)); rng.shuffle(perm)
+    style = rng.random()
+    for i in range(1, n):
+        edge(0, perm[i - 1] if style < 0.6 else perm[rng.randrange(i)], perm[i])
+    for _ in range(rng.randint(0, 3)):
+        edge(0, rng.randrange(n), rng.randrange(n))
+    prep_heavy = rng.random() < 0.2       # a fifth of the families work mostly with prepared tables (DISTANCES of every member)
+    for step in range(rng.randint(6, 30)):
+        mem = fam_members(case)
+        live = [k for k, M in enumerate(mem) if M["nodes"]]
+        r = rng.random()
+        if prep_heavy and live and rng.random() < 0.5:
+            k = rng.choice(live)
+            if rng.random() < 0.3 or not any(o[0] == "p" for o in mem[k]["ops"]):
+                ops.append([k, ["p", cut()]])
+            else:
+                ops.append([k, [rng.choice(["q", "q", "h"]), rng.choice(mem[k]["nodes"]), rng.choice(mem[k]["nodes"]), obj()]])
+            continue
+        if r < 0.16 and len(mem) < 5 and live:
+            k = rng.choice(live)
+            ops.append([k, ["x", rng.choice(mem[k]["nodes"]), xcut(), obj()]])
+            continue
+        if r < 0.19 and len(mem) < 5:
+            ops.append([len(mem), ["c"]])
+            a, b = rng.randrange(n), rng.randrange(n)
+            edge(len(mem), a, b)
+            continue
+        k = rng.randrange(len(mem)) if rng.random() < 0.3 else (rng.choice(live) if live else 0)
+        nodes = mem[k]["nodes"]
+        if mem[k]["edges"] and rng.random() < 0.07:
+            ops.append([k, ["W", rng.choice(mem[k]["edges"])[0], wgt()]])
+            continue
+        if not nodes or r < 0.27:
+            a = rng.choice(nodes) if nodes and rng.random() < 0.6 else rng.randrange(n)
+            edge(k, a, rng.randrange(n))
+        elif r < 0.30:
+            ops.append([k, ["n", rng.randrange(n)]])
+        elif r < 0.62:
+            ops.append([k, ["d", rng.choice(nodes), rng.choice(nodes), cut(), rng.choice([0, 0, 0, 1]), obj()]])
+        elif r < 0.70:
+            ops.append([k, ["l", rng.choice(nodes), cut(), rng.choice([0, 0, 1]), obj()]])
+        elif r < 0.80:
+            ops.append([k, ["r", rng.choice(nodes), rng.choice(nodes + [None, None]), cut(), rng.choice([0, 0, 1]), obj()]])
+        elif r < 0.86:
+            ops.append([k, ["a", cut(), rng.choice([0, 0, 1])]])
+        elif r < 0.92:
+            ops.append([k, ["p", cut()]])
+        elif r < 0.98 and any(o[0] == "p" for o in mem[k]["ops"]):
+            ops.append([k, [rng.choice(["q", "q", "h"]), rng.choice(nodes), rng.choice(nodes), obj()]])
+        else:
+            ops.append([k, ["s", rng.choice(nodes), xcut(), obj()]])
+    return case
+
+
+def enum_families(tier):
+    """exhaustive small scope of the shared-Node situation: a 3-node path (network A), B = A.sub_network(s0, c0) kept, then every
+    sequence of three searches in the pattern A B A and B A B, each search being any list-form or pair-form call on nodes the
+    network holds. quick: the two-way unit path; thorough: also the one-way path and a path with a zero-weight edge."""
+    graphs = [[[0, 0, 1, 1, 0], [1, 1, 2, 1, 0]]]
+    if tier == "thorough":
+        graphs += [[[0, 0, 1, 1, 1], [1, 1, 2, 1, 1]], [[0, 0, 1, 0, 0], [1, 2, 1, 2, -1]]]
+    def calls(nodes):
+        return [["l", s, "none", 0, 0] for s in nodes] + [["d", s, t, "none", 0, 0] for s in nodes for t in nodes if s != t]
+    out = []
+    for g in graphs:
+        head = [[0, ["c"]]] + [[0, ["e"] + e] for e in g]
+        for s0 in range(3):
+            for c0 in (0, 1, "none"):
+                pre = head + [[0, ["x", s0, c0, 0]]]
+                mem = fam_members({"n": 3, "ops": pre})
+                ca, cb = calls([0, 1, 2]), calls(sorted(mem[1]["nodes"]))
+                for (k1, k2, k3, c1, c2, c3) in ((0, 1, 0, ca, cb, ca), (1, 0, 1, cb, ca, cb)):
+                    for a in c1:
+                        for b in c2:
+                            for c in c3:
+                                out.append({"kind": "fam", "n": 3, "ids": "int", "ex": 1, "ops": pre + [[k1, a], [k2, b], [k3, c]]})
+    return out
 
 
 class SessRunner:
     """one real `Network` object and what the caller holds (the Node objects handed in, a dictionary passed as
     output_dict); `call(op)` performs one op of the session forms above and returns its result record(s)"""
 
-    def __init__(self, mods, strs=False, pos=None):
+    def __init__(self, mods, strs=False, pos=None, net=None, mine=None):
         self.mods = mods
         Network = mods[0]
-        self.net = Network()
-        self.mine = {}          # the Node objects handed to addNode / addEdge
+        self.net = Network() if net is None else net      # `net`: a Network the library returned (sub_network)
+        self.mine = {} if mine is None else mine          # the Node objects handed to addNode / addEdge (`mine` given: a pool shared with other networks)
         self.ud = {}            # the caller's dictionary
         self.pos = pos          # node id -> [x, y] (default: (v, 0))
         self.lab = (lambda v: None if v is None else "n%d" % v) if strs else (lambda v: v)
@@ -600,7 +772,11 @@ class SessRunner:
         net, ud, arg, unlab = self.net, self.ud, self.arg, self.unlab
         ckw = lambda c: {} if c == "none" else {"cut": nc.pynum(c)}
         k = op[0]
-        if k == "n":
+        if k in "rdlsx" and any(v is not None and self.lab(v) not in net.NODES for v in ([op[1], op[2]] if k in "rd" else [op[1]])):
+            # outside the domain (a node this network does not hold — possible only on a network the library built,
+            # whose node set the generator predicted): not called; the model answers `err` there too
+            r = "err"
+        elif k == "n":
             net.addNode(self.node(op[1])); r = "ok"
         elif k == "e":
             e = Edge(op[1], Track())
@@ -645,6 +821,10 @@ class SessRunner:
             # searches on the returned network (it shares the Node objects with `net`), then `net` goes on
             probe = [[dtok(sub.shortest_distance(a, b)) for b in ids] for a in ids]
             r = ["s", [unlab(x) for x in ids], list(sub.getEdgesId()), probe]
+        elif k == "x":
+            # sub_network whose result is KEPT by the caller (it becomes a member of the family: see impl_fam)
+            self.extracted = net.sub_network(arg(op[1], op[3]), 1e300 if op[2] == "none" else nc.pynum(op[2]), verbose=False)
+            r = ["s", [unlab(x) for x in self.extracted.getNodesId()], list(self.extracted.getEdgesId())]
         else:
             raise ValueError("unknown op %r" % (op,))
         out = [r]
@@ -681,6 +861,10 @@ class P(Prop):
         (M, "TV.C06.session_answers_pure", "in any state reached by any call sequence every call answers with the pure function of the current graph (no trace of earlier searches)"),
         (M, "TV.C06.session_distance_correct", "in any state reached by any call sequence shortest_distance(s,t[,cut]) = the minimum over permitted walks of the current graph; sentinel iff no walk"),
         (M, "TV.C06.session_tables_sound", "DISTANCES and a caller's output_dict hold only true distances through every call that does not add an edge"),
+        (M, "TV.C06.shared_nodes_search_pure", "run_routing_forward as coded (reset of the own nodes, explicit priority_dict) on Node objects carrying ANY flags — left by this network or by another network holding the same objects: output_dict entries and the flags of its own nodes are those of the pure search; foreign nodes are untouched"),
+        (M, "TV.C06.shared_nodes_call_as_private", "any call on a network whose Node objects carry any flags answers as the same network with Node objects of its own (the session model), same object afterwards up to the flags"),
+        (M, "TV.C06.family_answers_as_private", "any program over networks built on one pool of Node objects (Network(), addEdge, searches, tables, prepare, sub_network results kept and used, extracts of extracts) returns call by call what it returns with private Node objects"),
+        (M, "TV.C06.family_distance_correct", "in any state of such a family, on every member shortest_distance(s,t[,cut]) = the minimum over permitted walks of that member's own graph, sentinel iff none, whatever the other members searched in between"),
         (M, "TV.C06.tuple_order_ok", "Python's order on (priority, key) tuples is a strict weak order (what heapq needs)"),
         (M, "TV.C06.heapq_heappush", "heapq.heappush (append + _siftdown) keeps the heap invariant and adds exactly the item (permutation)"),
         (M, "TV.C06.heapq_heappop_min", "heapq.heappop (_siftup: bubble to a leaf, then _siftdown) returns a minimum of the multiset, leaves the other items, keeps the heap invariant; fails iff empty"),
@@ -690,27 +874,40 @@ class P(Prop):
         (M, "TV.C06.own_setting_dijkstra_is_session", "an object whose own routing_mode is not 1 (the default) answers every call as the session model, whatever its astar_wgt; the setters change their own object's two attributes only"),
         (M, "TV.C06.no_target_no_heuristic", "in A* mode every call other than a search with a target (list form, all_shortest_distances, prepare, sub_network) is the Dijkstra call: the heuristic is never computed"),
         (M, "TV.C06.astar_zero_heuristic_is_dijkstra", "A* with a heuristic that is 0 everywhere (astar_wgt = 0, or all nodes at the target's place) runs as Dijkstra: shortest_distance(s,t) = the true minimum, sentinel iff unreachable"),
-        (M, "TV.C06.astar_as_coded_bounds", "the A* branch as coded (poids = g + accumulated heuristic), any heuristic >= 0: a reported value is never below the weight of a permitted walk; without a cut-off the sentinel iff no walk exists"),
-        (M, "TV.C06.astar_as_coded_inflates", "the A* branch as coded is NOT exact even for a consistent heuristic: on the road 0-10-1-10-2 it reports 30, the distance (and the repaired variant's answer) is 20 (finding astar-label-accumulates-heuristic)"),
-        (M, "TV.C06.astar_fixed_exact", "the repaired A* (label g, queue priority g + h) is exact for every consistent heuristic: the minimum over permitted walks, sentinel iff none"),
+        (M, "TV.C06.astar_any_heuristic_bounds", "A* (label g, queue priority g + h) with ANY heuristic, any cut-off: a reported value is the weight of a permitted walk (never below the minimum); without a cut-off the sentinel iff no walk exists — what the oracle asks when the heuristic is not consistent"),
+        (M, "TV.C06.astar_exact", "A* with a consistent heuristic: shortest_distance(s,t) = the minimum over permitted walks, sentinel iff none"),
+        (M, "TV.C06.astar_cut", "A* with a consistent heuristic (smallest at the target), with a cut-off: shortest_distance(s,t,cut) = the true distance whenever it is <= cut; sentinel whenever t is unreachable"),
+        (M, "TV.C06.astar_cut_sound", "A* with a consistent heuristic, with a cut-off: whatever is returned is the weight of a permitted walk; the sentinel only when no walk within the cut-off exists"),
+        (M, "TV.C06.astar_output_dict_entries_sound", "A* with a consistent heuristic, any target, any cut-off: every output_dict entry is the true distance of its key within the cut-off; entries = visited nodes; every visited node's label is its true distance"),
         (M, "TV.C06.consistent_of_scaled_metric", "edges weighing at least astar_wgt x the distance between their ends + the triangle inequality make the heuristic consistent (the configuration the oracle holds A* to the statement for)"),
+        (M, "TV.C06.world_astar_distance_correct", "any program over several Network objects: on an object whose own method is A* at that moment and whose heuristic towards t is consistent on its current graph, shortest_distance(s,t[,cut]) = the minimum over permitted walks, sentinel iff none; with a cut-off the true distance whenever within it"),
+        (M, "TV.C06.astar_heuristic_consistent", "Node.distanceTo is the Euclidean distance (triangle inequality proved, any sqrt that is a square root on an ordered field): with 0 <= astar_wgt and every permitted arc weighing at least astar_wgt x the straight-line distance of its ends (the oracle's predicate) the heuristic towards any target is consistent and smallest at the target"),
+        (M, "TV.C06.world_astar_metric_distance_correct", "the property for A* at full strength, hypotheses on the configuration only: in any program, on an A* object with 0 <= astar_wgt and arcs >= astar_wgt x straight-line length, shortest_distance(s,t[,cut]) = the minimum over permitted walks, sentinel iff none, true distance whenever within the cut-off"),
+        (M, "TV.C06.world_astar_call_is_pure", "in any state of such a program a search with a target on an A* object answers, and fills output_dict, as the pure A* search on its current graph (flags of earlier searches are reset)"),
+        (M, "TV.C06.astar_old_inflates", "what fix c78e3ab repaired: on the road 0-10-1-10-2 (consistent heuristic) the PRE-FIX loop (HOld: poids = g + h) reported 30; the model of the present code, Dijkstra and the true distance are 20, also under the cut-off 20"),
     ]
     partial = []
     open_statements = ["float weights: the theorems need only a linear order, a + 0 = a, 0 <= w -> a <= a + w and a <= b -> a + w <= b + w (no associativity: code and Walk both add from the source outwards), "
                        "which IEEE round-to-nearest addition has on non-NaN doubles; they are stated with Mathlib's ordered-monoid classes, so the instance for IEEE doubles is not constructed in Lean "
                        "(the float stream compares with exact rational distances at 1e-9 relative)",
                        "save_prep / load_prep are modelled as 'the dictionary read back is the dictionary written' (numpy's pickle is exercised by the sessions, not modelled); "
-                       "sub_network in GEOMETRIC mode is outside the model",
-                       "A* as coded (routing_mode = 1, a target, heuristic not 0) does not satisfy the statement (theorem astar_as_coded_inflates; finding astar-label-accumulates-heuristic, "
-                       "findings/C06.json): only astar_as_coded_bounds is proved for it; exactness is proved for the repaired variant (astar_fixed_exact, exact arithmetic, no cut-off). "
-                       "The Euclidean triangle inequality behind `consistent_of_scaled_metric` is a hypothesis (sqrt is a parameter of the model)"]
-    modelled = ("Network.__init__ (routing_mode, astar_wgt as instance attributes), setRoutingMethod, setAStarWeight, the A* branch of run_routing_forward as coded "
-                "(heuristic = astar_wgt * fils.distanceTo(NODES[target]) when routing_mode == 1 and a target is given, added into fils.poids; relaxation test without it), "
-                "Node.distanceTo / ENUCoords.distanceTo / norm, several Network objects alive at once (Model/GraphAStar.lean, which also holds the repaired A* `forwardFix`); "
+                       "sub_network in GEOMETRIC mode is outside the model; in the family model (shared Node objects) every member routes with Dijkstra "
+                       "(setRoutingMethod on a member of a family is not modelled: the world model has the settings, with private Node objects)",
+                       "A*: exactness is proved in exact arithmetic (ordered cancellative monoid); with float weights the g + h comparisons are subject to rounding (float world stream: 1e-9 relative). "
+                       "sqrt is a parameter of the model, assumed to be a square root on the non-negative elements of an ordered field (IsSqrt; the Euclidean triangle inequality is proved from that); A* with a heuristic that is NOT consistent is outside the statement "
+                       "(documented as approximate): only astar_any_heuristic_bounds is proved and judged for it"]
+    modelled = ("Network.__init__ (routing_mode, astar_wgt as instance attributes), setRoutingMethod, setAStarWeight, the A* branch of run_routing_forward as it is after fix c78e3ab "
+                "(heuristic = astar_wgt * fils.distanceTo(NODES[target]) when routing_mode == 1 and a target is given, else its initial 0; fils.poids = pere.poids + e.weight — the label is g, so the stop test "
+                "`pere.poids > cut` and output_dict see g —; fil[fils] = fils.poids + heuristic — the queue pops by (g + h, node id)), "
+                "Node.distanceTo / ENUCoords.distanceTo / norm, several Network objects alive at once (Model/GraphAStar.lean, which also keeps the pre-fix loop `forwardHOld` as the documented defective variant); "
                 "Network.addNode / addEdge (NEXT_EDGES by orientation), __resetFlags, run_routing_forward in Dijkstra mode (pop by (poids, node id), stop tests "
                 "before recording, 'other end' rule, visite guard, strict < relaxation, output_dict), shortest_distance (pair and list form, ids or Node objects, with output_dict), "
                 "all_shortest_distances (fresh or caller's dictionary), prepare, prepared_shortest_distance, has_prepared_shortest_distance, sub_network (TOPOLOGIC) — "
                 "as pure functions (Model/Graph.lean) and as a state machine over call sequences on one object (Model/GraphSession.lean); "
+                "several Network objects holding the SAME Node objects — what sub_network returns (__sub_network_routing: sub_net.addEdge(e, e.source, e.target)) and what a caller "
+                "obtains by filling two networks from one pool of nodes: one common store of poids / visite / antecedent flags, __resetFlags over the calling network's own NODES only, "
+                "the loop with the explicit priority_dict on whatever the store holds; Edge.weight as a live attribute of Edge objects shared by a network and its extracts "
+                "(Model/GraphShared.lean: routeOnPD, execSh, Fam / execFam with setWeight; the driver's `fam` command runs exactly that); "
                 "priority_dict (tracklib/core/utils.py): constructor, __setitem__ with the rebuild threshold, pop_smallest with lazy deletion, len (Model/PDict.lean) "
                 "on top of heapq's heapify / heappush / heappop with _siftdown / _siftup on the list (Model/Heapq.lean); the forward loop over the priority_dict as Model/GraphPD.lean "
                 "(proved equal to the abstract loop)")
@@ -729,11 +926,17 @@ class P(Prop):
             "cut-offs none/0/.5/1/2/3/5; ids, the network's Node objects or fresh equal Node objects as arguments; a caller's dictionary passed repeatedly as output_dict), every answer "
             "checked against Floyd-Warshall on the graph as built so far. "
             "Several (2-3) small networks alive at the same time with their calls interleaved. "
+            "Families: 1-5 Network objects on ONE pool of 3-8 Node objects — a first network (chain / tree skeleton plus extra edges, weights 0, 1/2, 1, 2, 3), networks returned by "
+            "sub_network(s, cut in 0..5 / none) that are KEPT and used like any other network (extracts of extracts too), further Network() objects filled with nodes of the pool; 6-30 calls "
+            "interleaved over all members (shortest_distance pair / list form, run_routing_forward with the flags read back, all_shortest_distances, prepare / prepared, sub_network, "
+            "addNode / addEdge on any member, edge.weight = w on an Edge object already in use — seen by every member holding it). Every member's answers are judged against Floyd-Warshall on its OWN edge list as built so far (an extract: the edges the returned object "
+            "holds); non-trivial = a distance query on a member after another member has searched (stale foreign labels on shared nodes). "
             "Worlds: 2-3 Network objects (2-5 nodes each, placed on a line, on the corners of a 3k x 4k rectangle, or all at one point, so that every distance is rational), created at "
             "random moments, 8-34 calls interleaved: the session calls above plus setRoutingMethod(0/1) and setAStarWeight(0, 1/2, 1, 3/2, 2) on individual objects; edge weights "
             "either metric (straight-line distance x 1, 3/2, 2, 3) or arbitrary. Each object's answers are judged with ITS OWN settings: Dijkstra -> the statement; A* without a target -> the "
             "statement; A* with a target and a consistent heuristic (0 <= astar_wgt, every weight >= astar_wgt x straight-line length; includes astar_wgt = 0) -> the statement "
-            "(failures there with a too-large value are the finding astar-label-accumulates-heuristic; such calls are generated only once that finding is listed in known_findings.json); "
+            "for the value, for every dictionary entry written and for the label of every node run_routing_forward marked visited (the class of the former finding astar-label-accumulates-heuristic, "
+            "repaired by c78e3ab: always generated, judged like any other input; its witnesses are corpus cases); "
             "A* with a target otherwise (documented as approximate) -> sentinel iff unreachable when there is no cut-off, and never below the minimum. "
             "Float worlds: the same with nodes anywhere on a 1/16 lattice in the plane or in space (irrational distances, sqrt = IEEE sqrt), float weights (metric x 1..3 or arbitrary, zeros), "
             "float astar_wgt and cut-offs; model instantiated at Float and compared bit for bit, oracle in exact rationals at 1e-9 relative. "
@@ -743,40 +946,9 @@ class P(Prop):
 
     def setup(self):
         self.mods = nc.import_mods()
-        self._listed = None
-
-    def listed(self, cls):
-        """is `cls` a listed finding of known_findings.json (read, never written)? Inputs of a finding's class are generated
-        only then: the engine excuses a failing case only when its class is listed (proposal: findings/C06.json)"""
-        if getattr(self, "_listed", None) is None:
-            import json, os
-            try:
-                with open(os.path.join(os.path.dirname(os.path.dirname(os.path.dirname(os.path.abspath(__file__)))), "known_findings.json")) as fh:
-                    ents = json.load(fh).get("entries", [])
-                self._listed = {e.get("class") for e in ents if e.get("property") == "C06" and e.get("status") == "finding"}
-            except Exception:
-                self._listed = set()
-        return cls in self._listed
-
-    def corpus(self):
-        """corpus cases marked `needs_listed` are witnesses of a finding: run only once the finding is listed"""
-        import json, os
-        d = os.path.join(os.path.dirname(os.path.dirname(os.path.dirname(os.path.abspath(__file__)))), "corpus", self.id)
-        out = []
-        if os.path.isdir(d):
-            for f in sorted(os.listdir(d)):
-                if f.endswith(".json"):
-                    with open(os.path.join(d, f)) as fh:
-                        c = json.load(fh)
-                    if c.get("needs_listed") and not self.listed(c["needs_listed"]):
-                        continue
-                    out.append(c.get("case", c))
-        return out
 
     def classify(self, case, impl_out, msg):
-        if isinstance(msg, str) and msg.startswith(ASTAR_TAG):
-            return FINDING_ASTAR
-        return None
+        return None     # no listed finding: the class astar-label-accumulates-heuristic was repaired by c78e3ab (corpus/C06/world-astar-consistent-inflated.json is its witness)
 
     def fresh(self):
         """Hermetic evaluation: every case runs on freshly executed definitions of the two anchored modules
@@ -800,6 +972,9 @@ class P(Prop):
         s = ["all edge lists (ordered) of length 0..2 on 1..3 nodes over {src,tgt} x weights {0,1,2} x orientations {-1,0,1} (8067 graphs) x all ordered pairs x cut-offs {d-1/2, d, d+1/2 : d a distance} and none"]
         if tier == "thorough":
             s.append("all multisets of 3 edges on 1..3 nodes over the same alphabet (100482 multigraphs), edge and node insertion order shuffled")
+        s.append("families (networks sharing their Node objects): the two-way unit path 0-1-2%s as network A, B = A.sub_network(s0, c0) kept, for every s0 in {0,1,2} and c0 in {0, 1, none}; "
+                 "every sequence of three searches in the patterns A B A and B A B, each any list-form or pair-form shortest_distance on nodes the network holds (%d cases)"
+                 % (("", 6768) if tier == "quick" else (", the one-way path 0->1->2 and a path with a zero-weight and a reverse-oriented edge", len(enum_families("thorough")))))
         s.append("heapq: all lists of 0..%d tuples over priorities {0,1} x keys {0,1} (%d lists): heapify, then heappop until IndexError, the list compared after every step"
                  % ((5, 1365) if tier == "quick" else (6, 5461)))
         return s
@@ -875,13 +1050,16 @@ class P(Prop):
                 g["cuts"] = ["none"] + sorted({nc.tok(c) for c in rng.sample(allc, min(2, len(allc)))}, key=Fraction)
                 subs.append(g)
             out.append({"kind": "multi", "subs": subs})
-        # several Network objects with their own routing settings (setRoutingMethod / setAStarWeight), calls interleaved
-        gate = not self.listed(FINDING_ASTAR)
+        # several Network objects holding the SAME Node objects (sub_network results kept and used, networks filled from one pool)
+        out += enum_families(tier)
         for _ in range(1500 if tier == "quick" else 25000):
-            out.append(random_world(rng, gate))
+            out.append(random_family(rng))
+        # several Network objects with their own routing settings (setRoutingMethod / setAStarWeight), calls interleaved
+        for _ in range(1500 if tier == "quick" else 25000):
+            out.append(random_world(rng))
         # the same with float coordinates / weights / cut-offs (model instantiated at Float, sqrt = IEEE sqrt)
         for _ in range(500 if tier == "quick" else 8000):
-            out.append(random_world(rng, gate, floats=True))
+            out.append(random_world(rng, floats=True))
         return out
 
     def describe(self, case):
@@ -895,6 +1073,19 @@ class P(Prop):
             tg = world_regimes(case)
             return {"kind": case["kind"], "networks": sum(1 for _, o in case["ops"] if o[0] == "c"),
                     "targeted_searches": "+".join(k for k, v in sorted(tg.items()) if v) or "none"}
+        if case["kind"] == "fam":
+            ks = [o[0] for _, o in case["ops"]]
+            # searches on a member after another member of the family has searched since this member's last search
+            last, stale = {}, 0
+            searched = None
+            for i, (k, o) in enumerate(case["ops"]):
+                if o[0] in "rdlapsx":
+                    if searched is not None and searched != k and k in last:
+                        stale += 1
+                    last[k] = i; searched = k
+            return {"kind": "fam", "members": min(5, ks.count("c") + ks.count("x")), "extracts": min(3, ks.count("x")),
+                    "search_after_foreign_search": "0" if stale == 0 else "1-3" if stale <= 3 else "4+", "ids": case.get("ids", "int"),
+                    "weight_changed": "W" in ks}
         if case["kind"] == "sess":
             ks = [o[0] for o in case["ops"]]
             first_q = next((i for i, k in enumerate(ks) if k not in "ne"), len(ks))
@@ -925,6 +1116,14 @@ class P(Prop):
                 if k in seen and o[0] in "dlarps":
                     return True
             return False
+        if case["kind"] == "fam":
+            searched = None
+            for k, o in case["ops"]:
+                if o[0] in "rdlapsx":
+                    if searched is not None and searched != k and o[0] in "rdlap":
+                        return True     # a distance query on a network after another network of the family has searched
+                    searched = k
+            return False
         if case["kind"] == "sess":
             seen_edge = False
             for o in case["ops"]:
@@ -938,25 +1137,44 @@ class P(Prop):
 
     # ---------------------------------------------------------------- implementation
     def impl_pq(self, case):
+        """`priority_dict` on its own, for the correspondence with Model/PDict.lean (never judged by the oracle: the property
+        speaks about distances). What an operation raises is part of the answer (`err` = IndexError as the model has it,
+        `exc:<type>` anything else) and is compared with the model, like the internal `_heap` list."""
         from tracklib.core.utils import priority_dict
         with nc.time_limit(3):
             pd = priority_dict({k: nc.pynum(p) for k, p in case["init"]})
             res = []
             for op in case["ops"]:
-                if op[0] == "p":
-                    try:
+                try:
+                    if op[0] == "p":
                         res.append(str(pd.pop_smallest()))
-                    except IndexError:
-                        res.append("err")
-                else:
-                    pd[op[1]] = nc.pynum(op[2])
-                    res.append(str(len(pd)))
-                res[-1] += "@" + self.heap_tok(pd._heap)
+                    else:
+                        pd[op[1]] = nc.pynum(op[2])
+                        res.append(str(len(pd)))
+                except IndexError:
+                    res.append("err")
+                except (nc.Timeout, nc.Skipped):
+                    raise
+                except Exception as e:
+                    res.append("exc:" + type(e).__name__)
+                res[-1] += "@" + self.heap_tok(getattr(pd, "_heap", None))
         return {"res": res}
 
     @staticmethod
     def heap_tok(h):
-        return "~".join("%s:%d" % (nc.tok(Fraction(v)), k) for v, k in h) or "_"
+        """the internal heap list, `(priority, key)` tuples position by position as Model/PDict.lean keeps it. It is an
+        internal of the queue: an entry of any other shape (an implementation may keep whatever it likes there) is rendered
+        opaquely — the model then disagrees (a broken correspondence), reading never raises and nothing here is judged."""
+        if not isinstance(h, (list, tuple)):
+            return "?"
+        out = []
+        for ent in h:
+            try:
+                v, k = ent
+                out.append("%s:%d" % (nc.tok(Fraction(v)), k))
+            except Exception:
+                out.append("?")
+        return "~".join(out) or "_"
 
     def impl_hq(self, case):
         import heapq
@@ -998,6 +1216,33 @@ class P(Prop):
                     res += runs[k].call(op)
         return {"res": res}
 
+    def impl_fam(self, case):
+        """several Network objects on one pool of Node objects; a network returned by sub_network is kept and used"""
+        res = []
+        with nc.time_limit(10):
+            runs, pool = [], {}
+            strs = case.get("ids", "int") == "str"
+            for k, op in case["ops"]:
+                if op[0] == "c":
+                    runs.append(SessRunner(self.mods, strs, mine=pool))
+                    res.append("ok")
+                    continue
+                if op[0] == "W":
+                    # through the network's own accessor: `members[k].getEdge(eid).weight = w`; then what every member holding an
+                    # edge of that id now carries (whether an extract shares its parent's Edge objects is the library's business)
+                    if k < len(runs) and runs[k].net.hasEdge(op[1]):
+                        runs[k].net.getEdge(op[1]).weight = nc.pynum(op[2])
+                    res.append(["w", [[j, dtok(x.net.getEdge(op[1]).weight)] for j, x in enumerate(runs) if x.net.hasEdge(op[1])]])
+                    continue
+                if k >= len(runs):        # a member that does not exist (an extraction before it was not made): as the model, `err`
+                    res += ["err"] + ([["t", []]] if has_dump(op) else [])
+                    continue
+                out = runs[k].call(op)
+                res += out
+                if op[0] == "x" and out[0] != "err":
+                    runs.append(SessRunner(self.mods, strs, net=runs[k].extracted, mine=pool))
+        return {"res": res}
+
     def impl_float(self, case):
         n = case["n"]
         with nc.time_limit(20):
@@ -1020,6 +1265,8 @@ class P(Prop):
             return self.impl_sess(case)
         if case["kind"] in ("world", "fworld"):
             return self.impl_world(case)
+        if case["kind"] == "fam":
+            return self.impl_fam(case)
         if case["kind"] == "rnd-float":
             return self.impl_float(case)
         if case["kind"] == "multi":
@@ -1108,6 +1355,19 @@ class P(Prop):
                     sub = self.requests({"kind": "sess", "n": 0, "ops": [op], "fmt": fmt})[0].split(" ")[2]
                     toks += ["%d:%s" % (k, t) for t in sub.split(";")]
             return ["C06.%s %s %s" % ("fworld" if fl else "world", nets, ";".join(toks) or "_")]
+        if case["kind"] == "fam":
+            toks = []
+            for k, op in case["ops"]:
+                if op[0] == "c":
+                    toks.append("%d:c" % k)
+                elif op[0] == "x":
+                    toks.append("%d:x,%d,%s" % (k, op[1], "none" if op[2] == "none" else nc.tok(nc.num(op[2]))))
+                elif op[0] == "W":
+                    toks.append("%d:W,%d,%s" % (k, op[1], nc.tok(nc.num(op[2]))))
+                else:
+                    sub = self.requests({"kind": "sess", "n": 0, "ops": [op]})[0].split(" ")[2]
+                    toks += ["%d:%s" % (k, t) for t in sub.split(";")]
+            return ["C06.fam %d %s" % (case["n"], ";".join(toks) or "_")]
         if case["kind"] == "sess":
             fmt = case.get("fmt") or (lambda x: nc.tok(nc.num(x)))
             ct = lambda c: "none" if c == "none" else fmt(c)
@@ -1184,7 +1444,7 @@ class P(Prop):
             if replies[0] == "bad-request":
                 raise ValueError("bad-request")
             return {"res": [] if replies[0] == "_" else replies[0].split(",")}
-        if case["kind"] in ("sess", "world", "fworld"):
+        if case["kind"] in ("sess", "world", "fworld", "fam"):
             if replies[0] == "bad-request":
                 raise ValueError("bad-request")
             # float stream: the model's doubles as the exact rationals they denote (what dtok() makes of the implementation's)
@@ -1249,9 +1509,20 @@ class P(Prop):
             m = self.spec_pq(case, impl_out)     # the reference dict agrees with the model; name what differs
             if m:
                 return m
-        if case["kind"] in ("sess", "world", "fworld") and "res" in impl_out and isinstance(model_out, dict) and "res" in model_out:
+        if case["kind"] in ("sess", "world", "fworld", "fam") and "res" in impl_out and isinstance(model_out, dict) and "res" in model_out:
             # the searches on the returned sub-network are not part of the one-object model (checked by spec_sess)
             impl_out = {"res": [r[:3] if isinstance(r, list) and r and r[0] == "s" else r for r in impl_out["res"]]}
+        if case["kind"] == "fam" and "res" in impl_out:
+            # `edge.weight = w`: the model (one Edge object per id, shared by a network and its extracts) answers `ok`;
+            # so does the implementation when every network holding an edge of that id now carries w
+            ws = iter([nc.tok(nc.num(op[2])) for _, op in case["ops"] if op[0] == "W"])
+            res = []
+            for r in impl_out["res"]:
+                if isinstance(r, list) and r and r[0] == "w":
+                    w = next(ws, None)
+                    r = "ok" if all(x[1] == w for x in r[1]) else r
+                res.append(r)
+            impl_out = {"res": res}
         return Prop.compare(self, case, impl_out, model_out)
 
     # ---------------------------------------------------------------- oracle
@@ -1269,6 +1540,8 @@ class P(Prop):
             return self.spec_sess(case, out)
         if case["kind"] in ("world", "fworld"):
             return self.spec_world(case, out)
+        if case["kind"] == "fam":
+            return self.spec_fam(case, out)
         if case["kind"] == "multi":
             for i, (sub, o) in enumerate(zip(case["subs"], out["subs"])):
                 m = self.spec(sub, o)
@@ -1356,19 +1629,17 @@ class P(Prop):
         res = list(out["res"])
         pos = 0
         for i, op in enumerate(case["ops"]):
-            m, _, pos = orc.feed("call %d %s" % (i, json_op(op)), op, res, pos)
+            m, pos = orc.feed("call %d %s" % (i, json_op(op)), op, res, pos)
             if m:
                 return m
         return None
 
     def spec_world(self, case, out):
         """several Network objects: each object's answers are judged by its own oracle, with its OWN settings (what the
-        other objects were told never matters). A failure of the listed finding's class (an object switched to A* by its
-        own setter, consistent heuristic) is reported only when nothing else fails in the case."""
+        other objects were told never matters)."""
         orcs = {}
         res = list(out["res"])
         pos = 0
-        first_known = None
         for i, (k, op) in enumerate(case["ops"]):
             what = "call %d on network %d: %s" % (i, k, json_op(op))
             if op[0] == "c":
@@ -1377,12 +1648,55 @@ class P(Prop):
                 orcs[k] = SessOracle(case["nets"][k]["n"], pos=case["nets"][k]["pos"], tol=1e-9 if case["kind"] == "fworld" else None)
                 pos += 1
                 continue
-            m, known, pos = orcs[k].feed(what, op, res, pos)
-            if m and not known:
+            m, pos = orcs[k].feed(what, op, res, pos)
+            if m:
                 return m
-            if m and first_known is None:
-                first_known = m
-        return first_known
+        return None
+
+    def spec_fam(self, case, out):
+        """several networks holding the same Node objects: every network's answers are judged, call by call, against
+        Floyd-Warshall on ITS OWN graph as built so far (`SessOracle`); a network returned by sub_network and kept is judged on
+        the edges it actually holds (`extracted_oracle`). What the other networks of the family did in between never matters."""
+        orcs = []
+        res = list(out["res"])
+        pos = 0
+        for i, (k, op) in enumerate(case["ops"]):
+            what = "call %d on network %d: %s" % (i, k, json_op(op))
+            if op[0] == "c":
+                if pos >= len(res) or res[pos] != "ok":
+                    return "%s: %s" % (what, res[pos] if pos < len(res) else "no result")
+                orcs.append(SessOracle(case["n"]))
+                pos += 1
+                continue
+            if op[0] == "W":
+                rec = res[pos] if pos < len(res) else None
+                if not (isinstance(rec, list) and rec and rec[0] == "w"):
+                    return "%s: %s" % (what, rec if rec is not None else "no result")
+                pos += 1
+                # network k's own edge now weighs w; any other network is judged on the weight ITS edge of that id carries
+                # (read back from the object: the statement does not say whether an extract shares its parent's Edge objects)
+                seen = dict((j, w) for j, w in rec[1])
+                for j, o in enumerate(orcs):
+                    hit = [e for e in o.edges if e[0] == op[1]]
+                    if not hit:
+                        continue
+                    neww = op[2] if j == k else seen.get(j)
+                    if neww is None or neww == "none":
+                        continue
+                    for e in hit:
+                        e[3] = neww
+                    o.ver += 1; o.fw = None
+                continue
+            if k >= len(orcs):      # a member that was never created (the extraction before it was not made): nothing to judge
+                pos += 2 if has_dump(op) else 1
+                continue
+            rec = res[pos] if pos < len(res) else None
+            m, pos = orcs[k].feed(what, op, res, pos)
+            if m:
+                return m
+            if op[0] == "x" and rec != "err":
+                orcs.append(extracted_oracle(orcs[k], rec))
+        return None
 
     def spec_pq(self, case, out):
         ref = {k: nc.num(p) for k, p in case["init"]}
@@ -1441,11 +1755,34 @@ class P(Prop):
                     yield dict(case, subs=subs[:k] + [c] + subs[k + 1:])
             return
         if case["kind"] in ("world", "fworld"):
-            # while the A* finding is not listed its class is not generated — and not drifted into by shrinking either
-            gate = not self.listed(FINDING_ASTAR) and world_regimes(case)["astar_consistent"] == 0
             for c in self.shrink_world(case):
-                if world_valid(c) and not (gate and world_regimes(c)["astar_consistent"]):
+                if world_valid(c):
                     yield c
+            return
+        if case["kind"] == "fam":
+            ops = case["ops"]
+            for i in range(len(ops) - 1, -1, -1):
+                if ops[i][1][0] in "cx":      # dropping a creation: drop the member's calls, renumber the later members
+                    born = sum(1 for _, o in ops[:i] if o[0] in "cx")
+                    if born == 0:
+                        continue
+                    r = lambda j: j - 1 if j > born else j
+                    c = dict(case, ops=[[r(j), o] for t, (j, o) in enumerate(ops) if t != i and j != born])
+                else:
+                    c = dict(case, ops=ops[:i] + ops[i + 1:])
+                if fam_valid(c):
+                    yield c
+            for i, (k, op) in enumerate(ops):
+                if op[0] in "rdlqhsx" and op[-1] != 0:
+                    yield dict(case, ops=ops[:i] + [[k, op[:-1] + [0]]] + ops[i + 1:])
+                if op[0] in "rd" and op[4] != 0:
+                    yield dict(case, ops=ops[:i] + [[k, op[:4] + [0] + op[5:]]] + ops[i + 1:])
+                if op[0] in "rdl" and op[-3] != "none":
+                    yield dict(case, ops=ops[:i] + [[k, op[:-3] + ["none"] + op[-2:]]] + ops[i + 1:])
+                if op[0] == "e" and op[4] not in (0, 1):
+                    yield dict(case, ops=ops[:i] + [[k, op[:4] + [1, op[5]]]] + ops[i + 1:])
+            if case.get("ids") == "str":
+                yield dict(case, ids="int")
             return
         if case["kind"] == "pq":
             for k in range(len(case["ops"])):
@@ -1481,7 +1818,7 @@ class P(Prop):
             yield dict(case, cuts=cut_tokens(case, d))
 
     def mutate(self, case, rng):
-        if case["kind"] in ("pq", "hq", "sess", "multi", "world", "fworld"):
+        if case["kind"] in ("pq", "hq", "sess", "multi", "world", "fworld", "fam"):
             return
         c = nc.explicit(case)
         for k, e in enumerate(c["edges"]):
